@@ -325,11 +325,23 @@ fn case12<A: Alphabet>(case: u64, rng: &mut Rng, rep: &mut Report, alpha: &str, 
         if s >= ex.min() - 1.0 && s <= ex.max() + 1.0 {
             rep.nontrivial(st.digest(alpha, s));
         }
+        let mut restart_shared = false;
         if let Some(t) = shared.as_mut() {
             if let Err(p) = disturb(rng, rep, &st, t) {
-                rep.violate(&format!("c12.panic:{}", panic_site(&p)), case, format!("panic in a query on a reused object: {}", p), st.witness(alpha, J::Null));
-                return;
+                // the disturbing calls include score refinements, which can hit the open C13 finding
+                // (lookup_score window panic, reported by the C13 check): not a C12 matter - the
+                // object is replaced and the run goes on
+                if c13_panic_kind(&st, &p, None) == "c13.window_exhausted_above.panic" {
+                    rep.cover("disturb.known_c13_window_panic_skipped");
+                    restart_shared = true;
+                } else {
+                    rep.violate(&format!("c12.panic:{}", panic_site(&p)), case, format!("panic in a query on a reused object: {}", p), st.witness(alpha, J::Null));
+                    return;
+                }
             }
+        }
+        if restart_shared {
+            shared = Some(TfmPvalue::new(&st.pssm));
         }
         let res = guard(|| {
             let mut fresh;
@@ -430,6 +442,54 @@ fn case12<A: Alphabet>(case: u64, rng: &mut Rng, rep: &mut Report, alpha: &str, 
     rep.sample(|| st.witness(alpha, J::obj().set("attainable_scores", J::u(ex.scores.len())).set("words", J::UInt(ex.words))).set("case", J::UInt(case)));
 }
 
+/// Signature of the open finding KF-C13-window-exhausted-above: `lookup_score` indexes
+/// `keys[keys.len()]` ("the len is N but the index is N") because the probability mass above the
+/// score window inherited from the coarser step already exceeds p. It is the inherent windowing
+/// limitation of the ported algorithm iff the frozen reference copy (tfm_ref) panics the same way
+/// on the same query from a fresh object; any other panic, or one the reference does not share, is
+/// a new violation.
+fn keys_len_panic(msg: &str) -> bool {
+    if let Some(i) = msg.find("the len is ") {
+        let rest = &msg[i + 11..];
+        let a: String = rest.chars().take_while(|c| c.is_ascii_digit()).collect();
+        if let Some(j) = rest.find("but the index is ") {
+            let b: String = rest[j + 17..].chars().take_while(|c| c.is_ascii_digit()).collect();
+            return !a.is_empty() && a == b;
+        }
+    }
+    false
+}
+
+fn reference_panics_alike<A: Alphabet>(st: &Setup<A>, p: f64) -> bool {
+    let r = guard(|| {
+        let mut t = crate::tfm_ref::TfmPvalue::new(&st.pssm);
+        for x in t.approximate_score(p) {
+            if x.converged || x.granularity <= MIN_G * 2.0 {
+                break;
+            }
+        }
+    });
+    match r {
+        Err(m) => keys_len_panic(&m),
+        Ok(()) => false,
+    }
+}
+
+fn c13_panic_kind<A: Alphabet>(st: &Setup<A>, msg: &str, p: Option<f64>) -> String {
+    let in_lib = panic_site(msg).ends_with("lightmotif-tfmpvalue/src/lib.rs");
+    if in_lib && keys_len_panic(msg) {
+        // the disturbing calls use p = 0.3 and p = 0.01
+        let ps: Vec<f64> = match p {
+            Some(p) => vec![p],
+            None => vec![0.3, 0.01],
+        };
+        if ps.iter().any(|&q| reference_panics_alike(st, q)) {
+            return "c13.window_exhausted_above.panic".to_string();
+        }
+    }
+    format!("c13.panic:{}", panic_site(msg))
+}
+
 fn case13<A: Alphabet>(case: u64, rng: &mut Rng, rep: &mut Report, alpha: &str, max_m: usize) {
     rep.cover(&format!("alphabet.{}", alpha));
     let st = match setup::<A>(rng, rep, max_m) {
@@ -481,7 +541,7 @@ fn case13<A: Alphabet>(case: u64, rng: &mut Rng, rep: &mut Report, alpha: &str, 
         if let Some(t) = shared.as_mut() {
             match disturb(rng, rep, &st, t) {
                 Err(pn) => {
-                    rep.violate(&format!("c13.panic:{}", panic_site(&pn)), case, format!("panic in a query on a reused object: {}", pn), st.witness(alpha, J::Null));
+                    rep.violate(&c13_panic_kind(&st, &pn, None), case, format!("panic in a query on a reused object: {}", pn), st.witness(alpha, J::Null));
                     return;
                 }
                 Ok(ops) => disturb_ref(&ops, &st, shared_ref.as_mut().unwrap()),
@@ -524,7 +584,7 @@ fn case13<A: Alphabet>(case: u64, rng: &mut Rng, rep: &mut Report, alpha: &str, 
         let its = match res {
             Ok(x) => x,
             Err(pn) => {
-                rep.violate(&format!("c13.panic:{}", panic_site(&pn)), case, format!("panic in approximate_score({}): {}", p, pn), st.witness(alpha, J::obj().set("p", J::f(p))));
+                rep.violate(&c13_panic_kind(&st, &pn, Some(p)), case, format!("panic in approximate_score({}): {}", p, pn), st.witness(alpha, J::obj().set("p", J::f(p))));
                 return;
             }
         };
@@ -604,7 +664,7 @@ fn case13<A: Alphabet>(case: u64, rng: &mut Rng, rep: &mut Report, alpha: &str, 
             rep.cover("score.checked");
             match guard(|| TfmPvalue::new(&st.pssm).score(p)) {
                 Err(pn) => {
-                    rep.violate(&format!("c13.panic:{}", panic_site(&pn)), case, format!("panic in score({}): {}", p, pn), st.witness(alpha, J::obj().set("p", J::f(p))));
+                    rep.violate(&c13_panic_kind(&st, &pn, Some(p)), case, format!("panic in score({}): {}", p, pn), st.witness(alpha, J::obj().set("p", J::f(p))));
                     return;
                 }
                 Ok(sc) => {
